@@ -340,7 +340,14 @@ class StateMachine(object):  # pylint: disable=too-many-public-methods
     def ae_1(self):
         """Issue TransportConnect request primitive to local transport service."""
         self.dul_socket = socket.socket(socket.AF_INET, socket.SOCK_STREAM)
-        self.dul_socket.connect(self.primitive.called_presentation_address)
+        try:
+            self.dul_socket.connect(self.primitive.called_presentation_address)
+        except socket.error:
+            # Transport connection can not be opened: while awaiting it (Sta4) that is
+            # a transport connection closed indication (AA-4: A-P-ABORT indication)
+            self.dul_socket.close()
+            self.dul_socket = None
+            self.provider.event.append(Events.EVT_17)
         return States.STA_4
 
     def ae_2(self):
